@@ -336,6 +336,23 @@ def run(ctx):
            key="R16.7:rtosc_arg_val_itr_get",
            what="rtosc_arg_val_itr_get copies a stored slot into the caller's one-slot buffer (`%s`): of a repeated array only the header arrives, the comparison then reads the elements behind the caller's variable" % (A.src(copies[0])[:80] if copies else ""))
 
+    # ---- R16.8: the iterator's walk, evaluated on slot layouts
+    ctx.rule("R16.8", "ITR-WALK: rtosc_arg_val_itr_next, evaluated on small slot layouts (scalars, arrays, finite and infinite repetitions of scalars and of arrays, ranges with a delta slot), stands on each value once per repetition, keeps its slot counter equal to its position, and leaves a finished range behind the whole repeated value")
+    from ..rules import avwalk as AW
+    for lname, layout in sorted(AW.LAYOUTS.items()):
+        try:
+            seen8, end8, visits8, final8 = AW.walk(ui, layout)
+        except FD.Unknown as e:
+            raise AnalysisBroken("R16.8: iterator not evaluable on layout %r: %s" % (lname, e))
+        ok8 = [(a_, r_) for a_, r_, _ in seen8] == visits8 and all(a_ == i_ for a_, _, i_ in seen8)
+        if final8 is not None:
+            ok8 = ok8 and end8[0] == final8 and end8[2] == final8 and end8[1] == 0
+        ctx.ob("R16.8", lname, ok8, site=A.where(ui.function("rtosc_arg_val_itr_next")),
+               detail={"stands_on (slot, repetition, counter)": [list(x) for x in seen8][:10], "expected (slot, repetition)": [list(x) for x in visits8][:10], "ends_at": list(end8), "expected_end": final8},
+               key="R16.8:%s" % lname,
+               what="on the layout `%s` the iterator stands on %s and ends at %s; expected %s, end %s" % (lname, [x[:2] for x in seen8][:8], end8, visits8[:8], final8))
+    ctx.require_count("R16.8", 10)
+
     # ---- R16.3
     bad = []
     pairs = [("i", 1, "f", 1.0), ("s", "a", "S", "a"), ("T", 1, "F", 0), ("h", 1, "i", 1), ("b", b"", "s", "")]
